@@ -759,8 +759,57 @@ def run_cases(values):
 def violations_for(values, obs, groups=None):
     out = []
     for v, o in zip(values, obs):
-        for kind, what in oracle_one(v, o):
+        try:
+            res = oracle_one(v, o)
+        except Exception as e:  # noqa: BLE001 -- the oracle must not stop the check: report the case, go on
+            res = [("ref", "the reference computation failed on this value (%s: %s)" % (type(e).__name__, str(e)[:120]))]
+        for kind, what in res:
             out.append(Violation(what, {"kind": kind, "v": enc(v)}))
+    return out
+
+
+# the same scalar must be written the same way wherever it stands
+POSITIONS = [
+    ("top", lambda s: s, lambda t: t),
+    ("array", lambda s: [s], lambda t: "[" + t + "]"),
+    ("member", lambda s: {"k": s}, lambda t: '{"k":' + t + "}"),
+    ("nested member", lambda s: {"a": {"b": s}}, lambda t: '{"a":{"b":' + t + "}}"),
+    ("nested array", lambda s: [[s]], lambda t: "[[" + t + "]]"),
+    ("array in member", lambda s: {"k": [None, s]}, lambda t: '{"k":[null,' + t + "]}"),
+    ("member in array", lambda s: [{"k": s, "j": 1}], lambda t: '[{"j":1,"k":' + t + "}]"),
+]
+
+
+def gen_position_scalars(rng, tier):
+    """scalars of every kind, integers first: beyond 2^53, at and beyond 1e21, negative, exactly representable or not"""
+    zs = [2 ** 53, 2 ** 53 + 2, 2 ** 63, 2 ** 64, 2 ** 64 - 1, 2 ** 70, 10 ** 16, 10 ** 20, 10 ** 21, 10 ** 22, 10 ** 21 + 2 ** 20,
+          123456789012345680000, 9007199254740993, 3 * 2 ** 60, 0, 1, -1, 7, 10 ** 15, 2 ** 31]
+    zs += [-z for z in zs if z]
+    for _ in range(20 if tier != "thorough" else 400):
+        zs.append(rng.randrange(2 ** 53, 2 ** 90) * rng.choice((1, -1)))
+        zs.append(2 ** rng.randrange(53, 100) * rng.choice((1, -1)))
+    fs = [1e21, 1e-7, 1.5e-6, 1e20, 0.0, -0.0, 5e-324, 123.456, 1.7976931348623157e308, -2.5e-300, 7.0, 1e16]
+    others = [None, True, False, "", "a\"b\n", "\U0001F600", "\u20ac"]
+    return zs + fs + others
+
+
+def position_violations(pos_groups, obs):
+    out = []
+    for scalar, idxs in pos_groups:
+        top = obs[idxs[0]]
+        for (name, _, wrap), i in zip(POSITIONS[1:], idxs[1:]):
+            o = obs[i]
+            if "ok" in top:
+                want = wrap(top["ok"])
+                if o.get("ok") != want:
+                    out.append(Violation(
+                        "the scalar %r is written %r at top level but as %s it gives %r (expected %r)"
+                        % (scalar, top["ok"][:60], name, (o.get("ok") or o.get("exc"))[:80], want[:80]),
+                        {"kind": "position", "v": enc(scalar), "position": name}))
+            elif o.get("exc") != top.get("exc"):
+                out.append(Violation("the scalar %r is refused with %s at top level but as %s: %r"
+                                     % (scalar, top.get("exc"), name, o.get("ok") or o.get("exc")),
+                                     {"kind": "position", "v": enc(scalar), "position": name}))
     return out
 
 
@@ -894,6 +943,15 @@ def check(run):
             idxs.append(len(values))
             values.append(v); terms.append("cj %s" % common.coq_jvalue(v)); kinds.append("doc")
         groups.append((idxs, g))
+    # every kind of scalar in every position (top level, array element, object member value, nested)
+    pos_groups = []
+    for sc in gen_position_scalars(rng, run.tier):
+        idxs = []
+        for name, build, _ in POSITIONS:
+            v = build(sc)
+            idxs.append(len(values))
+            values.append(v); terms.append("cj %s" % common.coq_jvalue(v)); kinds.append("pos")
+        pos_groups.append((sc, idxs))
     n_model = len(values)
     # out-of-model ints: oracle only
     for z in OUT_OF_MODEL_INTS:
@@ -965,6 +1023,8 @@ def check(run):
     # ---- oracle on every case
     vio = violations_for(values, obs)
     vio += order_violations(groups, obs)
+    vio += position_violations(pos_groups, obs)
+    run.coverage["position_groups"] = len(pos_groups)
 
     # ---- history independence: the same questions after other public calls in one interpreter
     try:
@@ -1005,7 +1065,7 @@ def check(run):
         seen_kind[k] = seen_kind.get(k, 0) + 1
         if seen_kind[k] > 3:
             continue
-        if k not in ("order", "history"):
+        if k not in ("order", "history", "position"):
             val = dec(v.replay["v"])
             if isinstance(val, (list, dict)):
                 small = shrink(val, k)
@@ -1041,6 +1101,16 @@ def replay(payload):
         for h in r["hist"][:5]:
             print("                  call: %s" % json.dumps(h["hist"])[:160])
         if fresh.get("ok") != after.get("ok") or fresh.get("exc") != after.get("exc"):
+            print("VIOLATION property=C16 replay=(given)")
+            return 1
+        print("no violation on this input")
+        return 0
+    if kind == "position":
+        pos = [p for p in POSITIONS if p[0] == r["position"]][0]
+        a, b = run_cases([v, pos[1](v)])
+        print("replay position: %r at top level -> %r" % (v, a.get("ok", a.get("exc"))))
+        print("                 as %s -> %r" % (pos[0], b.get("ok", b.get("exc"))))
+        if ("ok" in a and b.get("ok") != pos[2](a["ok"])) or ("exc" in a and a.get("exc") != b.get("exc")):
             print("VIOLATION property=C16 replay=(given)")
             return 1
         print("no violation on this input")
